@@ -1,5 +1,8 @@
 package art
 
 func NewUnsignedBinaryTree[K uints, V any]() Tree[K, V] {
+	if verifRecording {
+		return verifWrap[K, V]("unsigned", &unsignedSortedTree[K, V]{}, nil)
+	}
 	return &unsignedSortedTree[K, V]{}
 }
